@@ -609,6 +609,9 @@ def cli_run_set(cwd, files, kinds, jobs, fail_fast, keep, rnd, sigint_at=0, late
     if jobs:
         args += ["-j", str(jobs)]
     env = {}
+    if rnd.random() < 0.3:
+        # a variable of the process environment that is spelled like the runner's own: the runner's wins
+        env["__DATABASE__"] = "from_the_environment"
     # either spelling of the two switches: the flag or its environment variable
     if fail_fast:
         if rnd.random() < 0.6:
@@ -787,6 +790,21 @@ def profile_cli17(rnd, n, thorough, out):
             files.append(g)
             kinds[g] = "pass"
             files.sort()
+        if si == 1:
+            # one session that needs longer to close than any plausible grace period
+            g = files[0]
+            open(os.path.join(cwd, g), "w").write(f"statement ok\nlinger 6500 x -- F{g}\n\n" + file_text(g, "pass", rnd, extra=False))
+            kinds[g] = "pass"
+        if si % 5 == 3:
+            # the report cannot be written (no such directory): the run fails at the very end, after every
+            # database it created has been dropped (judged by the event-log monitor alone)
+            jobs = rnd.randint(1, 4)
+            r = run_cli(cwd, ["-j", str(jobs), "--junit", "no-such-dir/out", "t/*.slt"], {"FAKE_LATENCY_MS": "3"}, timeout=25)
+            tags = statuses(r.stdout, files)
+            evs = canon_events(r.events, "postgres", None)
+            line = f"libmon {jobs} {hx('postgres')} {len(files)}" + "".join(
+                f" {hx(f)} {0}" for f in files) + f" {len(evs)} " + " ".join(evs)
+            out.add(line, "accept", f"cli17 set={si} jobs={jobs} the JUnit report cannot be written (exit {r.exit})", None)
         for ri in range(2 if not thorough else 4):
             # every job count 1..8 is visited in turn (jobs = 1 is a parallel run like any other)
             jobs = 1 + (2 * si + ri) % 8 if ri < 2 else rnd.randint(1, 8)
@@ -900,7 +918,7 @@ def profile_cli19(rnd, n, thorough, out):
         for f in files:
             m = f" -- F{f}"
             open(os.path.join(cwd, f), "w").write(
-                f"statement ok\nins 1{m}\n\nquery T\nbig {rnd.choice([70000, 200000])} x{m}\n----\nx\n\nstatement ok\nins 2{m}\n")
+                f"statement ok\norphan 45 x{m}\n\nquery T\nbig {rnd.choice([70000, 200000])} x{m}\n----\nx\n\nstatement ok\nins 2{m}\n")
         kindsb = {f: "fail" for f in files}     # (run to completion each file fails: the value is not `x`)
         r, tags, ju, evs, cause, oracle = cli_run_set(cwd, files, kindsb, jobs, False, False, rnd, sigint_at=2, latency=0)
         sig = [e for e in r.events if e["ev"] == "sigint"]
@@ -1178,15 +1196,30 @@ def upd_case(op, tree, sqls, k=None):
     return s
 
 
-def run_upd(cwd, tree, mode, kill_at=0, stale=False):
+def run_upd(cwd, tree, mode, kill_at=0, stale=False, via_link=False):
+    if via_link:
+        # the tree lives in `w/`, its root is a relative symbolic link to a file next to it, and the CLI
+        # is started one directory up: what is rewritten is what the name `w/root.slt` denotes
+        top = cwd
+        cwd = os.path.join(cwd, "w")
+        os.makedirs(cwd, exist_ok=True)
     for p, c in tree:
         os.makedirs(os.path.dirname(os.path.join(cwd, p)) or cwd, exist_ok=True)
+        if via_link and p == "root.slt":
+            open(os.path.join(cwd, "real_root.txt"), "w").write(c)
+            if os.path.lexists(os.path.join(cwd, p)):
+                os.remove(os.path.join(cwd, p))
+            os.symlink("real_root.txt", os.path.join(cwd, p))
+            continue
         open(os.path.join(cwd, p), "w").write(c)
         if stale:
             # what an earlier, interrupted run of a longer version of the file left behind
             open(os.path.join(cwd, p + ".temp"), "w").write("# stale line of an interrupted run\n" * 300)
     env = {"FAKE_SIGKILL_AT": str(kill_at)} if kill_at else {}
-    r = run_cli(cwd, [mode, "root.slt"], env, timeout=25)
+    if via_link:
+        r = run_cli(top, [mode, "w/root.slt"], env, timeout=25)
+    else:
+        r = run_cli(cwd, [mode, "root.slt"], env, timeout=25)
     after = []
     for p, _ in tree:
         try:
@@ -1197,7 +1230,7 @@ def run_upd(cwd, tree, mode, kill_at=0, stale=False):
     for d, _, fs in os.walk(cwd):
         for f in fs:
             rel = os.path.relpath(os.path.join(d, f), cwd)
-            if rel not in [p for p, _ in tree] and not rel.startswith("events.log"):
+            if rel not in [p for p, _ in tree] and not rel.startswith("events.log") and rel != "real_root.txt":
                 left.append(rel)
     left.sort()
     # database trace from the engine log
@@ -1264,6 +1297,17 @@ def profile_cliupd(rnd, n, thorough, out):
                     oracle = "C06|a second --override changed the files again (not a fixed point)"
         out.add(upd_case("cliupdate", tree, sqls), line, f"cliupd set={si} override", oracle)
         shutil.rmtree(cwd, ignore_errors=True)
+        # the same with the root file reached through a relative symbolic link from one directory up
+        if si % 3 == 0:
+            cwd = fresh_dir(f"upd_{si}")
+            r, after_l, left_l, line_l, _ = run_upd(cwd, tree, "--override", via_link=True)
+            oracle = None
+            if r.timeout:
+                oracle = "C08|--override did not terminate within 25 s"
+            elif left_l:
+                oracle = f"C08|debris after --override through a symbolic link: {left_l}"
+            out.add(upd_case("cliupdate", tree, sqls), line_l, f"cliupd set={si} override, root reached through a relative symlink", oracle)
+            shutil.rmtree(cwd, ignore_errors=True)
         # the same over stale temp files: the result must not depend on them
         cwd = fresh_dir(f"upd_{si}")
         r, after_s, left_s, line_s, _ = run_upd(cwd, tree, "--override", stale=True)
